@@ -61,7 +61,10 @@ PROFILES = {
     'blocking': dict(joint_block=0.6, blocking=1.0, depth=(1, 1), regions=(1, 3), flags=0.5, state_internal=0.0, sm_internal=0.0, completion=0.25, scripts=True),
     'queue': dict(scripts=True, depth=(1, 2), regions=(1, 2), completion=0.2, state_internal=0.2, sm_internal=0.0),
     'defer': dict(deferral=1.0, scripts=True, depth=(1, 1), regions=(1, 3), completion=0.0, state_internal=0.0, sm_internal=0.0),
+    'defer_act': dict(defer_action=0.7, deferral=1.0, scripts=True, depth=(1, 1), regions=(1, 3), completion=0.0, state_internal=0.0, sm_internal=0.0),
     'defer_nested': dict(deferral=1.0, nested_deferral=True, scripts=True, depth=(2, 2), regions=(1, 2), completion=0.0, state_internal=0.0,
+                         sm_internal=0.0, row_budget=12),
+    'defer_nested_outer': dict(outer_rows_on_deferred=True, defer_action=0.5, deferral=1.0, nested_deferral=True, scripts=True, depth=(2, 2), regions=(1, 2), completion=0.0, state_internal=0.0,
                          sm_internal=0.0, row_budget=12),
     'throw': dict(scripts=True, depth=(1, 2), regions=(1, 2), completion=0.2, state_internal=0.2, sm_internal=0.0),
     'throw_after_action': dict(action_none=0.4, guard_none=0.4, scripts=True, depth=(1, 2), regions=(1, 2), completion=0.2, state_internal=0.2, sm_internal=0.0, policy='after_action'),
@@ -594,7 +597,24 @@ class Gen:
                             tg = [t for t in reg if t != s and mm['states'][t]['kind'] in ('simple', 'sub')]
                             if tg and free:
                                 mm['table'].append(dict(src=s, ev=r.choice(free), tgt=r.choice(tg), guard=None, actions=self.actions()))
-        if self.p.get('nested_deferral'):
+        if self.p.get('defer_action', 0) > 0:
+            # the second deferral mechanism: an (unguarded) row with the Defer action instead of a deferred_events entry
+            for (mm, is_root) in targets:
+                for s, st in mm['states'].items():
+                    if st['kind'] == 'sub' or not st.get('deferred'):
+                        continue
+                    keep = []
+                    for e in st['deferred']:
+                        if r.random() < self.p['defer_action'] and len(mm['table']) < MAX_ROWS:
+                            mm['table'].insert(r.randint(0, len(mm['table'])), dict(src=s, ev=e, tgt=None, guard=None, actions='defer'))
+                            mm['activate_deferred'] = True
+                        else:
+                            keep.append(e)
+                    if keep:
+                        st['deferred'] = keep
+                    else:
+                        st.pop('deferred')
+        if self.p.get('nested_deferral') and not self.p.get('outer_rows_on_deferred'):
             # submachines that contain deferring states: rows of enclosing levels on deferred types would contradict them
             for mm, path in S.machines(sp):
                 mm['table'] = [rw for rw in mm['table'] if rw['ev'] not in dev or not isinstance(rw['src'], str) or mm['states'][rw['src']]['kind'] != 'sub']
